@@ -1240,8 +1240,9 @@ func (t *State) recoverUnconfirmedTx(undoList []*pb.Transaction) {
 		}
 
 		// 检查交易是否已经被确认（被其他节点打包倒区块并广播了过来）
-		isConfirm, err := t.sctx.Ledger.HasTransaction(tx.Txid)
-		if err != nil && isConfirm {
+		// (the condition used to be "err != nil && isConfirm", which never holds: a confirmed tx without
+		// consumable inputs was re-admitted and then packed again by the miner)
+		if t.sctx.Ledger.IsTxInTrunk(tx.Txid) {
 			confirmCnt++
 			t.log.Info("this tx has been confirmed,ignore recover", "txid", hex.EncodeToString(tx.Txid))
 			continue
